@@ -33,9 +33,14 @@ def equal_json_values(x, y):
 
     In Python True == 1 == 1.0, but true, 1 and 1.0 are different json
     values, so a diff that ignores the change can not reproduce the target.
-    Containers are compared with ==, their items are compared again when
-    the diff recurses into them.
+    Containers are compared item by item with the same rule.
     """
+    if isinstance(x, dict) and isinstance(y, dict):
+        return (x.keys() == y.keys() and
+                all(equal_json_values(x[k], y[k]) for k in x))
+    if isinstance(x, list) and isinstance(y, list):
+        return (len(x) == len(y) and
+                all(equal_json_values(xi, yi) for xi, yi in zip(x, y)))
     if x != y:
         return False
     for number_type in (bool, float):
